@@ -13,6 +13,9 @@ impls) of jsonpath/path.rs and keypath.rs (properties C09, C16), translated from
   J6  `impl Display` for integers / `Number`, `KeyPath`, `KeyPaths` = `printKeyPath`, `printKeyPaths`           (C16)
   J7  `impl Display` for `Index`, `ArrayIndex`, `PathValue`, the operators, `Path` / `Expr`, `JsonPath`
       = `printIndex` … `printJsonPath`                                                                         (C09)
+  J8  (NOT imported here: it needs phase 6b's TranslatedAgreeH5) the bridge: `PathStr.parseString` ≈ `JP.parseString`,
+      `PSpec Tr.parse_string`, `parse_key_paths_translated`, `parse_json_path_translated`
+  J9  (NOT imported here: it needs phase 5a's TranslatedAgreeE7) `ofKeyPath = ofKP`, `ofIdx = ofIndex`, `ofNumber = ofNum`
 -/
 import JsonbModel.Proofs.TranslatedAgreeJ1
 import JsonbModel.Proofs.TranslatedAgreeJ2
